@@ -11,7 +11,7 @@ interfaces, tuples, div (allow / and %), big (literals near INT_MIN/INT_MAX), pa
 INT, BOOL, STR = 'int', 'bool', 'Str'
 
 DEFAULT_OPTS = dict(loops=True, closures=True, vec=True, strings=True, generics=True, interfaces=True,
-                    tuples=True, div=True, big=False, panics=True, nfun=5, depth=3, two_modules=False, avoid_known_iv=False, vec_small=False, min_struct_fields=1)
+                    tuples=True, div=True, big=False, panics=True, nfun=5, depth=3, two_modules=False, avoid_known_iv=False, vec_small=False, min_struct_fields=1, loop_focus=False)
 
 
 class Ctx:
@@ -302,8 +302,26 @@ class ProgGen:
             stride = 1 if stride > 0 else -1
         mult = r.pick([1, 2, 3, -2, 4])
         off = r.pick([0, 1, -3, 7])
-        kind = r.below(7)
+        kind = r.pick([0, 1, 2, 3, 4, 5, 6, 7, 7, 8, 8, 8]) if self.o['loop_focus'] else r.below(9)
         i, acc, n = 'i', 'acc', 'n'
+        if kind >= 7:
+            # literal bound inside the function, the induction variable (and optionally one accumulator) as the
+            # only parameters: the shape the closed-form / trip-count paths of the loop optimizer need
+            self.features.add('loop-const-bound')
+            bound = r.pick([0, 10, 20, 50, 100, -7, 33])
+            step = '%s %s %d' % (i, '+' if stride > 0 else '-', abs(stride))
+            exit_op = {'<': '>=', '<=': '>', '>': '<=', '>=': '<', '!=': '=='}[op]
+            if kind == 7:
+                text = '  function %s(i: int, acc: int, n: int): int = Main.%sc(i)\n  function %sc(i: int): int = if %s %s %d { i } else { Main.%sc(%s) }' % (
+                    name, name, name, i, exit_op, bound, name, step)
+            else:
+                upd2 = r.pick(['acc + 1', 'acc + i', 'acc + 3', 'acc * 2 + 1'])
+                ret2 = r.pick(['acc', 'acc + i', 'i'])
+                text = '  function %s(i: int, acc: int, n: int): int = Main.%sc(i, acc)\n  function %sc(i: int, acc: int): int = if %s %s %d { %s } else { Main.%sc(%s, %s) }' % (
+                    name, name, name, i, exit_op, bound, ret2, name, step, upd2)
+            self._bound_for = getattr(self, '_bound_for', {})
+            self._bound_for[name] = bound
+            return text, name, op, stride
         if self.o['avoid_known_iv'] and kind == 0 and (op != '<' or mult <= 0):
             kind = 2          # stay out of the open finding C02-iv-elimination-guard
         if kind == 6:
@@ -346,6 +364,8 @@ class ProgGen:
         calls = []
         for _ in range(r.range(2, 4)):
             n = r.pick([0, 1, 5, 10, 17, -4, 100])
+            if name in getattr(self, '_bound_for', {}):
+                n = self._bound_for[name]
             if op in ('<', '<=', '!=') and stride > 0:
                 i0 = n - r.pick([0, 1, 2, 7, 12, 30]) * (abs(stride) if op == '!=' else 1)
             elif stride < 0:
@@ -354,7 +374,11 @@ class ProgGen:
                 i0 = n
             if r.chance(1, 6) and op != '!=':
                 i0 = n + (5 if stride > 0 else -5)      # zero-trip loop
-            calls.append('Main.%s(Main.inp("%d"), %s, Main.inp("%d"))' % (name, i0, r.pick(['0', '1', 'Main.inp("3")']), n))
+            if r.chance(3 if self.o['loop_focus'] else 2, 5):
+                # constant arguments: after inlining the loop has constant bounds (closed-form / unrolling paths)
+                calls.append('Main.%s(%d, %s, %d)' % (name, i0, r.pick(['0', '1']), n))
+            else:
+                calls.append('Main.%s(Main.inp("%d"), %s, Main.inp("%d"))' % (name, i0, r.pick(['0', '1', 'Main.inp("3")']), n))
         return calls
 
     def program(self):
@@ -366,7 +390,7 @@ class ProgGen:
         prints = []
         nfun = self.o['nfun']
         for i in range(nfun):
-            if self.o['loops'] and r.chance(2, 5):
+            if self.o['loops'] and r.chance(4 if self.o['loop_focus'] else 2, 5):
                 text, name, op, stride = self.gen_loop_fun(i)
                 body.append(text)
                 for c in self.loop_calls(name, op, stride):
